@@ -150,21 +150,23 @@ impl Interpreter {
                 state.stack.push_bytes(second_last);
             }
             OpCodes::OP_PICK => {
-                let index = state.stack.pop_number()?;
-                if index < 0 || index as usize >= state.stack.len() {
+                let index = state.stack.pop_bigint()?;
+                if index < BigInt::from(0) || index >= BigInt::from(state.stack.len()) {
                     return Err(InterpreterError::NumberOutOfRange);
                 }
+                let index = usize::try_from(index).map_err(|_| InterpreterError::NumberOutOfRange)?;
 
-                let selected_item = state.stack.get((state.stack.len() - 1) - index as usize).cloned().ok_or(InterpreterError::NumberOutOfRange)?;
+                let selected_item = state.stack.get((state.stack.len() - 1) - index).cloned().ok_or(InterpreterError::NumberOutOfRange)?;
                 state.stack.push_bytes(selected_item);
             }
             OpCodes::OP_ROLL => {
-                let index = state.stack.pop_number()?;
-                if index < 0 || index as usize >= state.stack.len() {
+                let index = state.stack.pop_bigint()?;
+                if index < BigInt::from(0) || index >= BigInt::from(state.stack.len()) {
                     return Err(InterpreterError::NumberOutOfRange);
                 }
+                let index = usize::try_from(index).map_err(|_| InterpreterError::NumberOutOfRange)?;
 
-                let selected_item = state.stack.remove((state.stack.len() - 1) - index as usize);
+                let selected_item = state.stack.remove((state.stack.len() - 1) - index);
                 state.stack.push_bytes(selected_item);
             }
             OpCodes::OP_ROT => {
@@ -264,13 +266,14 @@ impl Interpreter {
                 state.stack.push_bytes(x1)
             }
             OpCodes::OP_SPLIT => {
-                let n = state.stack.pop_number()?;
+                let n = state.stack.pop_bigint()?;
                 let x = state.stack.pop_bytes()?;
-                if n < 0 || n as usize > x.len() {
+                if n < BigInt::from(0) || n > BigInt::from(x.len()) {
                     return Err(InterpreterError::InvalidStackOperation("OP_SPLIT failed, position is out of range"));
                 }
+                let n = usize::try_from(n).map_err(|_| InterpreterError::NumberOutOfRange)?;
 
-                let (x1, x2) = x.split_at(n as usize);
+                let (x1, x2) = x.split_at(n);
                 state.stack.push_bytes(x1.to_vec());
                 state.stack.push_bytes(x2.to_vec());
             }
